@@ -1,8 +1,9 @@
-(* C19 -- Bundled reporters transmit records faithfully (Jaeger part: conversion and the
-   number encodings of the Thrift compact protocol).
+(* C19 -- Bundled reporters transmit records faithfully: conversions of the three reporters,
+   the number encodings of the Thrift compact protocol (Jaeger) and the msgpack primitives of
+   the Datadog body.
    Only pinned statements, closed by [exact lemma], with Print Assumptions. *)
 From Coq Require Import List NArith Bool.
-From FT Require Import Model.Jaeger Proofs.JaegerProofs.
+From FT Require Import Model.Jaeger Model.Reporters Proofs.JaegerProofs Proofs.ReportersProofs.
 Import ListNotations.
 Open Scope N_scope.
 
@@ -38,6 +39,40 @@ Theorem C19_varint_roundtrip :
   forall n rest, n < two64j -> unvarint_fuel 10 (varint n ++ rest) = Some (n, rest).
 Proof. exact varint64_roundtrip. Qed.
 
+(* Datadog: every field kept (low 64 bits of the trace id), the property set as a map *)
+Theorem C19_datadog_convert_faithful :
+  forall service resource ty r m,
+    let s := dd_convert service resource ty r m in
+    dd_name s = jr_name r /\ dd_service s = service /\ dd_resource s = resource /\ dd_type s = ty /\
+    dd_start s = jr_begin r /\ dd_duration s = jr_dur r /\
+    dd_span_id s = jr_id r /\ dd_parent_id s = jr_parent r /\ dd_trace_id s = jr_trace r mod two64j /\
+    (jr_props r = [] -> dd_meta s = None) /\ (jr_props r <> [] -> dd_meta s = Some m).
+Proof. exact dd_convert_faithful. Qed.
+
+(* msgpack: unsigned integers and strings of every size class read back to what was written,
+   whatever follows them (ids with the top bit set take the 8-byte form) *)
+Theorem C19_msgpack_uint_roundtrip :
+  forall n rest, n < two64j -> rd_int (mp_uint n ++ rest) = Some (n, rest).
+Proof. exact rd_uint_roundtrip. Qed.
+
+Theorem C19_msgpack_str_roundtrip :
+  forall s rest, N.of_nat (length s) < 4294967296 -> rd_str (mp_str s ++ rest) = Some (s, rest).
+Proof. exact rd_str_roundtrip. Qed.
+
+(* OpenTelemetry: identity on every listed field, end = start + duration *)
+Theorem C19_otel_convert_faithful :
+  forall r,
+    let s := otel_convert r in
+    os_trace s = jr_trace r /\ os_span s = jr_id r /\ os_parent s = jr_parent r /\ os_name s = jr_name r /\
+    os_start s = jr_begin r /\ os_end s = jr_begin r + jr_dur r /\ os_attrs s = jr_props r /\
+    map (fun e => (oe_name e, oe_time e, oe_attrs e)) (os_events s) =
+    map (fun e => (je_name e, je_ts e, je_props e)) (jr_events r).
+Proof. exact otel_convert_faithful. Qed.
+
+Print Assumptions C19_datadog_convert_faithful.
+Print Assumptions C19_msgpack_uint_roundtrip.
+Print Assumptions C19_msgpack_str_roundtrip.
+Print Assumptions C19_otel_convert_faithful.
 Print Assumptions C19_jaeger_convert_faithful.
 Print Assumptions C19_jaeger_microseconds.
 Print Assumptions C19_i64_field_roundtrip.
